@@ -48,3 +48,35 @@ Proof.
   - unfold hop_usize, usize, two64. repeat constructor; lia.
   - eexists. split; [vm_compute; reflexivity | reflexivity].
 Qed.
+
+(* the witnesses of the heap findings, in the source (memory-level model, HeapAllocator(1024) at an
+   address = 8 mod 16 like instance h0 of the harness; offsets of the harness are relative to 8) *)
+Definition hwit_h0 : hcfg := mkhcfg 8 1024.
+
+(* 9ef0717: alloc 100; b = alloc 50; deallocall; alloc 400; dealloc(b) is reported ... *)
+Example stale_pointer_reported :
+  exists s live, crun hwit_h0 (heap_init_state, []) [HAlloc 100; HAlloc 50; HDeallocAll; HAlloc 400] = Some (s, live) /\
+                 live = [mkblk 48 400] /\ hp_dealloc s (8 + 184) = HPanic.
+Proof. eexists. eexists. split; [vm_compute; reflexivity|]. split; reflexivity. Qed.
+
+(* ... and with a deallocall that does not clear the marks the same call is accepted *)
+Example stale_pointer_accepted_without_clearing :
+  exists s1 live1 s2 s3 p, crun hwit_h0 (heap_init_state, []) [HAlloc 100; HAlloc 50] = Some (s1, live1) /\
+    hp_deallocall_p false hwit_h0 s1 = HOk s2 /\ hp_alloc hwit_h0 s2 400 = HOk (s3, p) /\ p = 48 /\
+    exists s4, hp_dealloc s3 (8 + 184) = HOk s4.
+Proof.
+  eexists. eexists. eexists. eexists. eexists. split; [vm_compute; reflexivity|]. split; [vm_compute; reflexivity|].
+  split; [vm_compute; reflexivity|]. split; [reflexivity|]. eexists. vm_compute. reflexivity.
+Qed.
+
+(* d9328b9: HeapAllocator(200), alloc 8; dealloc; dealloc(buffer + 200) (one past the end) is reported *)
+Example one_past_end_reported :
+  exists s live, crun (mkhcfg 8 200) (heap_init_state, []) [HAlloc 8; HDealloc 0%nat] = Some (s, live) /\
+                 hp_dealloc s (8 + 200) = HPanic.
+Proof. eexists. eexists. split; [vm_compute; reflexivity | reflexivity]. Qed.
+
+(* 23ac203: HeapAllocator(48) is refused at its first use; HeapAllocator(1001) has a 16-aligned end node *)
+Example small_region_refused : hp_alloc (mkhcfg 8 48) heap_init_state 100 = HPanic.
+Proof. reflexivity. Qed.
+Example odd_size_end_aligned : heap_end (mkhcfg 8 1001) mod 16 = 0.
+Proof. reflexivity. Qed.
